@@ -48,7 +48,8 @@ def cases(rng, tier):
     nr = 1500 if tier == 'quick' else 15000
     for _ in range(nr):
         n = rng.randint(6, 9)
-        sig = [float(rng.choice([-2, -1, 0, 0, 1, 2, 3])) * rng.choice([1.0, 1.0, 0.5]) for _ in range(n)]
+        f = rng.choice([1.0, 1.0, 0.5, 1e-9, 1e-12, 1e9])
+        sig = [float(rng.choice([-2, -1, 0, 0, 1, 2, 3])) * f for _ in range(n)]
         idx, fp = rng.choice(_alt_sequences(n, rng, 400))
         out.append(_case('random_small', sig, idx, fp))
     nsig = 120 if tier == 'quick' else 1200
